@@ -17,12 +17,12 @@ P["C06"]=dict(level="other",
  thorough=dict(harnesses=["verifH_C06_ColdMiss","verifH_C06_StaleRefresh"]))
 
 P["C11"]=dict(level="other",
- explanation="One (quick) or two (thorough) cleanup cycles of the real Trait.invokeCleanup and deleteExpired of ShardedMap, SyncMap and ShardedMapOf[int] executed symbolically from an arbitrary pre-state of <=3 entries built in-package (expiry E any int64 including 0, presence bits, DeleteExpiredAfter, clock, TimeToLive finite/Unlimited and expirationsSet symbolic); survival of each entry is compared with the reference predicate E==0 or E>=now-DeleteExpiredAfter by z3.",
- bounds="<=3 entries with concrete distinct keys (real xxhash values), 1 or 2 cycles, no eviction limits configured, clock in [2^60,2^62] ns, DeleteExpiredAfter in (0,2^60]",
- outside="the janitor's ticker loop; states with UnlimitedTTL, expirationsSet==0 and dated entries (reachable only through ExpireAll/Restore) are not judged",
- assumptions=["sync.Map is modelled as a linearizable map with snapshot Range","map iteration order fixed (insertion order)"],
- quick=dict(harnesses=["verifH_C11_ShardedMap_2cyc","verifH_C11_SyncMap_2cyc","verifH_C11_ShardedMapOf_2cyc"], bounds="<=3 entries, two consecutive cleanup cycles with a later clock"),
- thorough=dict(harnesses=["verifH_C11_ShardedMap","verifH_C11_SyncMap","verifH_C11_ShardedMapOf","verifH_C11_ShardedMap_2cyc","verifH_C11_SyncMap_2cyc","verifH_C11_ShardedMapOf_2cyc"]))
+ explanation="(a) Inductive step: one (quick) or two (thorough) cleanup cycles of the real Trait.invokeCleanup and deleteExpired of ShardedMap, SyncMap and ShardedMapOf[int] executed symbolically from an arbitrary pre-state of <=3 entries built in-package (two of the keys share a shard; expiry E any int64 including 0, presence bits, DeleteExpiredAfter, clock, TimeToLive finite/Unlimited and expirationsSet symbolic); survival of each entry is compared with the reference predicate E==0 or E>=now-DeleteExpiredAfter by z3. The pre-state invariant 'UnlimitedTTL and expirationsSet==0 implies no dated entry' is assumed there and justified by (b). (b) Histories through the public API (verifH_C11_History_*): an entry is written, becomes dated by a per-call TTL, by ExpireAll, or by Dump/Restore into a second cache of the same configuration; after an arbitrary time one cleanup cycle runs on the very Trait the constructor started its janitor goroutine on (the executor records the receiver of the go statement); the entry must be gone exactly when it has been expired for longer than DeleteExpiredAfter.",
+ bounds="(a) <=3 entries with concrete keys (real xxhash values, two in one shard), 1 or 2 cycles, no eviction limits configured, clock in [2^60,2^62] ns, DeleteExpiredAfter in (0,2^60]; (b) one entry, one dating operation, one cycle, per-call TTL in (-2^50,2^50), DeleteExpiredAfter in (0,2^50]",
+ outside="the janitor's ticker loop itself (time.After); more than one dating operation per history",
+ assumptions=["sync.Map is modelled as a linearizable map with snapshot Range","map iteration order fixed (insertion order)","encoding/gob modelled as a record stream (history with Restore)"],
+ quick=dict(harnesses=["verifH_C11_ShardedMap_2cyc","verifH_C11_SyncMap_2cyc","verifH_C11_ShardedMapOf_2cyc","verifH_C11_History_ShardedMap","verifH_C11_History_SyncMap","verifH_C11_History_ShardedMapOf"], bounds="<=3 entries, two consecutive cleanup cycles with a later clock; histories of one dating operation"),
+ thorough=dict(harnesses=["verifH_C11_ShardedMap","verifH_C11_SyncMap","verifH_C11_ShardedMapOf","verifH_C11_ShardedMap_2cyc","verifH_C11_SyncMap_2cyc","verifH_C11_ShardedMapOf_2cyc","verifH_C11_History_ShardedMap","verifH_C11_History_SyncMap","verifH_C11_History_ShardedMapOf"]))
 
 c07h=["verifH_C07_ShardedMap_keyed","verifH_C07_ShardedMap_batch","verifH_C07_ShardedMap_ls","verifH_C07_SyncMap_keyed","verifH_C07_SyncMap_batch","verifH_C07_ShardedMapOf_keyed","verifH_C07_ShardedMapOf_batch","verifH_C07_ShardedMapOf_ls"]
 P["C07"]=dict(level="other",
